@@ -1453,6 +1453,8 @@ class Directory(HashableObjectWithManifest, BaseModel):
             entries_by_name[entry.name][entry.type].append(entry)
 
         # 3. strip duplicates
+        # names that are already taken: every original name, then every new name
+        used_names = {entry.name for entry in entries}
         deduplicated_entries = []
         for entry_lists in entries_by_name.values():
             # We could pick one entry at random to keep the original name; but we try to
@@ -1476,9 +1478,14 @@ class Directory(HashableObjectWithManifest, BaseModel):
                         # this one; so this one must be renamed to something.
                         # we pick the beginning of its hash, it should be good enough
                         # to avoid any conflict.
-                        new_name = (
-                            entry.name + b"_" + hash_to_bytehex(entry.target)[0:10]
-                        )
+                        prefix = entry.name + b"_" + hash_to_bytehex(entry.target)[0:10]
+                        new_name = prefix
+                        counter = 0
+                        while new_name in used_names:
+                            # the hash prefix was not enough to avoid a conflict
+                            counter += 1
+                            new_name = prefix + b"_%d" % counter
+                        used_names.add(new_name)
                         renamed_entry = attr.evolve(entry, name=new_name)
                         deduplicated_entries.append(renamed_entry)
 
